@@ -294,3 +294,84 @@ Section Sim.
       rewrite !get_delete_node_eq, N. auto.
   Qed.
 End Sim.
+
+(* ---- equality up to unlisted link nodes ------------------------------------------------------------------------------------------ *)
+Definition geq (hi hs : heap) : Prop :=
+  forall i, get hi i = get hs i \/ (sym_rel (get hi i) (get hs i) /\ forall d n, ~ In (n, i) (children hs d)).
+
+Lemma geq_refl (h : heap) : geq h h.
+Proof. intros i. left. reflexivity. Qed.
+
+Definition fsys_geq (si ss : fsys) : Prop :=
+  geq (f_heap si) (f_heap ss) /\ f_last_id si = f_last_id ss /\ f_vols si = f_vols ss.
+
+Lemma fsys_geq_refl (s : fsys) : fsys_geq s s.
+Proof. split; [apply geq_refl|auto]. Qed.
+
+(* the listing of the tree below a node both heaps agree on *)
+Lemma geq_snap (hi hs : heap) (os : ostype) : geq hi hs ->
+  forall (f : nat) (path : str) (i : nat), get hi i = get hs i -> snap f os hi path i = snap f os hs path i.
+Proof.
+  intros G. induction f as [|f IH]; intros path i E; [reflexivity|]. cbn [snap]. rewrite E.
+  destruct (get hs i) as [[ch m| |]|] eqn:Eg; try reflexivity. f_equal.
+  rewrite !flat_map_concat_map. f_equal. apply map_ext_in. intros [name c] Hin. apply IH.
+  apply (proj1 (sort_by_In (str * nat) (fun x : str * nat => fst x) _ _)) in Hin.
+  destruct (G c) as [Ec|(_ & F)]; [exact Ec|]. exfalso. apply (F i name). unfold children. rewrite Eg. exact Hin.
+Qed.
+
+Lemma geq_snapshot (wi ws : world) (vi : nat) :
+  geq (f_heap (w_fs wi)) (f_heap (w_fs ws)) -> w_views wi = w_views ws ->
+  (forall v, nth_error (w_views ws) vi = Some v -> node_is_dir (f_heap (w_fs ws)) (v_root v) = true) ->
+  snapshot wi vi = snapshot ws vi.
+Proof.
+  intros G Ev Hr. unfold snapshot. rewrite Ev. destruct (nth_error (w_views ws) vi) as [v|] eqn:E; [|reflexivity].
+  apply geq_snap; [exact G|]. destruct (G (v_root v)) as [Er|((t & t' & m & _ & Es) & _)]; [exact Er|].
+  specialize (Hr v eq_refl). unfold node_is_dir in Hr. rewrite Es in Hr. discriminate.
+Qed.
+
+(* ---- the removal of a non-empty directory [c], entry [cl] of [par] ------------------------------------------------------------------ *)
+Section Top.
+  Variables (h : heap) (u : user) (par c : nat) (cl : str).
+  Hypothesis Hadm : us_admin u = true.
+  Hypothesis Hacyc : forall d, ~ dreachp h d d.
+  Hypothesis Hss : sym_single h.
+  Hypothesis Hml : maxlen h c (S (length h)).
+  Hypothesis Hedge : In (cl, c) (children h par).
+  Hypothesis Hdir : node_is_dir h c = true.
+
+  Lemma top_sim :
+    exists hi', remove_all_rec (S (length h)) h u c = (hi', None)
+      /\ geq (delete_node (remove_child hi' par cl) c) (drop_tree (S (length h)) (remove_child h par cl) c)
+      /\ get hi' par = get h par.
+  Proof.
+    assert (Hne : c <> par).
+    { intros ->. apply (Hacyc par). exists par, cl. split; [constructor|exact Hedge]. }
+    assert (Hnr : ~ dreach h c par).
+    { intros Hr. apply (Hacyc c). exists par, cl. split; [exact Hr|exact Hedge]. }
+    set (hs0 := remove_child h par cl).
+    assert (Hg0 : forall i, i <> par -> get hs0 i = get h i).
+    { intros i Hi. unfold hs0. rewrite get_remove_child_eq. apply Nat.eqb_neq in Hi. rewrite Hi. reflexivity. }
+    assert (HR : R h par (fun _ => False) h hs0).
+    { split.
+      - intros i [].
+      - intros i _ Hi. left. symmetry. apply Hg0. exact Hi.
+      - intros d n x Hin. destruct (Nat.eq_dec d par) as [-> | Hd].
+        + unfold children, hs0 in Hin. rewrite get_remove_child_eq, Nat.eqb_refl in Hin. unfold children.
+          destruct (get h par) as [[ch m| |]|]; try exact Hin. apply in_aremove in Hin. tauto.
+        + rewrite (children_of_get h hs0 d (Hg0 d Hd)) in Hin. exact Hin.
+      - intros i. destruct (Nat.eq_dec i par) as [-> | Hi]; [|rewrite (Hg0 i Hi); reflexivity].
+        unfold hs0. rewrite get_remove_child_eq, Nat.eqb_refl. destruct (get h par) as [[| |]|]; reflexivity. }
+    assert (Hdirs : node_is_dir hs0 c = true) by (unfold node_is_dir; rewrite (Hg0 c Hne); exact Hdir).
+    destruct (P_all h u par Hadm Hacyc Hss (S (length h)) (fun _ => False) h hs0 c HR (fun x => x) Hnr
+                (fun x (F : False) => match F with end) Hdirs Hml) as (hi' & E & R1 & F1 & F2).
+    assert (Np : Nat.eqb par c = false) by (apply Nat.eqb_neq; congruence).
+    rewrite get_delete_node_eq, Np in F1.
+    exists hi'. split; [exact E|]. split; [|exact F1].
+    intros i. rewrite (unlink_get hi' par cl c i Hne). destruct (Nat.eq_dec i par) as [-> | Hi].
+    - left. rewrite Np, Nat.eqb_refl, F1, F2. unfold hs0. rewrite get_remove_child_eq, Nat.eqb_refl. reflexivity.
+    - assert (Ni : Nat.eqb i par = false) by (apply Nat.eqb_neq; exact Hi). rewrite Ni.
+      destruct (r_pt _ _ _ _ _ R1 i (fun x => x) Hi) as [Eq|(Eq & F)]; rewrite get_delete_node_eq in Eq.
+      + left. exact Eq.
+      + right. split; [exact Eq|]. intros d n Hin. exact (F d n Hin).
+  Qed.
+End Top.
